@@ -5,13 +5,16 @@ from .. import lib, pfile
 from . import c02, c03, c10
 
 ID = 'C01'
-LEAN_MODULE = 'PncProofs.C01'
+LEAN_MODULE = 'PncProofs.C01Files'      # imports PncProofs.C01
 LEAN_FILE = 'PncProofs/C01.lean'
+MORE_LEAN_FILES = ['PncProofs/C01Files.lean']
 NAMESPACE = 'Props.C01'
-LEAN_CONE = ['PncModel.Arr', 'PncModel.File', 'PncModel.Ioapi', 'PncProofs.FiberLemmas', 'PncProofs.C03', 'PncProofs.ArrLemmas', 'PncProofs.C01']
-LEMMA_FILES = []
+LEAN_CONE = ['PncModel.Arr', 'PncModel.File', 'PncModel.Ioapi', 'PncProofs.FiberLemmas', 'PncProofs.C03', 'PncProofs.ArrLemmas', 'PncProofs.C01',
+             'PncProofs.C02', 'PncProofs.C04', 'PncProofs.ZipLemmas', 'PncProofs.StackLemmas', 'PncProofs.SliceLemmas', 'PncProofs.C01Files']
+LEMMA_FILES = ['PncProofs/StackLemmas.lean', 'PncProofs/SliceLemmas.lean', 'PncProofs/ZipLemmas.lean']
 REQUIRED_THEOREMS = ['build_hasShape', 'mapCells_hasShape', 'zipCells_hasShape', 'mask_wf', 'insertDim_wf',
-                     'rebuilt_shape', 'subset_wf', 'renameVar_wf', 'binop_wf', 'reorder_wf', 'removeSingleton_wf', 'renameDims_wf', 'renameDim_wf', 'apply_wf', 'applyAxes_spec']
+                     'rebuilt_shape', 'subset_wf', 'renameVar_wf', 'binop_wf', 'reorder_wf', 'removeSingleton_wf', 'renameDims_wf', 'renameDim_wf', 'apply_wf', 'applyAxes_spec',
+                     'stack_wf', 'slice_wf']
 RULE = ('random files (as C02) x random sequences of 1-6 operations (copy, sliceDimensions, applyAlongDimensions, '
         'subsetVariables, renameVariable, renameDimension, renameDimensions (several at once: chains, swaps, equal targets), insertDimension, removeSingleton, reorderDimensions, '
         'stack with itself, file arithmetic with itself and with a dimension-permuted copy, mask) with in-domain arguments plus ~10% out-of-domain '
